@@ -369,20 +369,22 @@ Section DESolve.
     snd (solve N inf _ _ A (S f) s c is dflt) = true.
   Proof.
     intros f s c is dflt mi mf Hl Hmi Hfuel.
-    refine (solve_terminates N inf _ _ A (fun _ => True) (fun _ => True) _ _ _ _ _ _ f s c is dflt mi mf Logic.I _ Logic.I Hl Hmi Hfuel).
+    destruct (Z.eq_dec mi 0) as [E0|Hnz]; [subst mi; apply (solve_terminates_zero N inf _ _ A f s c is dflt mf Hl)|].
+    assert (Hpos : (0 < mi)%Z) by lia.
+    refine (solve_terminates N inf _ _ A (fun _ => True) (fun _ => True) _ _ _ _ _ _ f s c is dflt mi mf Logic.I _ Logic.I Hl Hpos Hfuel).
     - (* progress *)
-      intros s0 c0 i _ _. cbv zeta. split; [|exact Logic.I]. cbn [a_nested a_step de_algo].
+      intros s0 c0 i _ _ _. cbv zeta. split; [|exact Logic.I]. cbn [a_nested a_step de_algo].
       destruct (de_step_one_record s0 c0 i) as [b Hb]. rewrite Hb.
       destruct (run_prog_cfg N inf false _ (de_step N inf s0 c0 i) s0) as (_ & _ & Hs). cbv zeta in Hs.
       unfold ehlen, energy_history. cbn [stepmon set_stepmon a_ehist_extra de_algo]. rewrite Hs.
       rewrite !app_nil_r, map_app, app_length. simpl. lia.
     - (* finalize *)
-      intros s0 c0. cbn [a_finalize de_algo fst snd]. unfold ehlen, energy_history. cbn [stepmon set_stepmon].
+      intros s0 c0 _. cbn [a_finalize de_algo fst snd]. unfold ehlen, energy_history. cbn [stepmon set_stepmon].
       rewrite (app_nil_r (stepmon N s0)). apply Nat.le_refl.
     - intros s0 c0 i. reflexivity.
     - intros; exact Logic.I.
     - intros; exact Logic.I.
-    - intros c0. simpl. lia.
+    - intros c0 _. simpl. lia.
     - apply Forall_forall. intros; exact Logic.I.
   Qed.
 End DESolve.
